@@ -39,6 +39,8 @@ def run(prog, chk):
     from props import geomalg
     geomalg.check_sites(prog, chk, "C08")
     geomalg.check(prog, chk, "C08", floor=27)
+    from props import strops
+    strops.check_for(prog, chk, "C08")  # A14.str-ops: how this property's strings are cut up is a reviewed, frozen inventory
 
 
 def _lit(body, t, i):
